@@ -268,12 +268,14 @@ def run(tier, seed):
         for i, _ in grp:
             mod_of[i] = name
     tb = time.time()
-    builds = core.build_many(specs, jobs=4 if quick else 8)
+    builds = core.build_many(specs, jobs=4 if quick else 8, timeout=3000 if quick else 6000)
     cov["build_s"] = round(time.time() - tb, 1)
     built = {}
     for b, (wb, grp) in zip(builds, groups):
         if b.ok:
             built[b.name] = b
+        elif b.stage == "timeout":
+            core.die("build of %s timed out (machine load), no verdict" % b.name)
         else:
             rep.disagree({"part": "build", "stage": b.stage, "hz": ""}, "build-failed",
                          {"errors": (b.errors or "")[-3000:], "declarations": [d for _, d in grp][:40]})
